@@ -1386,6 +1386,20 @@ Theorem source_secondary_probs_renumbering (n : nat) (p : nat -> nat) (A : nat -
 Proof. exact (NpEquivariance.source_secondary_probs_renumbering n p A l). Qed.
 Print Assumptions source_secondary_probs_renumbering.
 
+(** node scores: the operator behind PageRank's piteration / lanczos / bicgstab solvers (RandomSurferOperator._matvec, Gen/NpRso.v,
+    from linalg/ppr_solver.py) commutes with the renumbering: applied to the renumbered graph, restart vector and argument, it gives
+    at node i what it gives on the original data at node p i.  Every iterate of the power iteration, hence its fixed point, is
+    therefore permuted. *)
+From SKN Require Import Gen.NpRso Proofs.NpRsoProofs.
+Theorem source_rso_renumbering (n : nat) (p : nat -> nat) (A : nat -> nat -> R) (s x : nat -> R) (alpha : R) :
+  perm_on n p ->
+  exists f' f,
+    rvdenote (env_rso n (pmat p A) (fun i => s (p i)) (fun i => x (p i)) alpha) src_rso_matvec = Some (WV n f') /\
+    rvdenote (env_rso n A s x alpha) src_rso_matvec = Some (WV n f) /\
+    forall i, f' i = f (p i).
+Proof. exact (NpEquivariance.source_rso_renumbering n p A s x alpha). Qed.
+Print Assumptions source_rso_renumbering.
+
 Example c02_nonvacuous_source_renumbering :
   perm_on 3 (fun i => match i with O => 2 | 1 => 0 | _ => 1 end)%nat /\ labels_ok 3 (0 :: 2 :: 0 :: nil)%Z /\ init_ok (@WNone R).
 Proof.
